@@ -1218,6 +1218,25 @@ tree_ts = ExecP("stack_memory").block(body_sm[1], 0, {"self": ("selft",), "memor
 if "pubfnget_memory_at_address<T>(&self,addr:u64)->Option<T>whereT:TryFromCtx<'a,scroll::Endian,[u8],Error=scroll::Error>,{letstart=addr.checked_sub(self.base_address)?asusize;self.bytes.pread_with::<T>(start,self.endian).ok()}" not in nows:
     die("MinidumpMemoryBase::get_memory_at_address: expected checked_sub(base_address)? then pread_with::<T>(start)")
 
+# (f) where the arguments of the translated functions come from
+for need in ("letos=Os::from_platform_id(raw.platform_id);letcpu=Cpu::from_processor_architecture(raw.processor_architecture);",
+             "pubfnget_crash_reason(&self,os:Os,cpu:Cpu)->CrashReason{CrashReason::from_exception(&self.raw,os,cpu)}",
+             "pubfnget_crashing_thread_id(&self)->u32{self.thread_id}",
+             "letcontext=location_slice(all,&raw.thread_context).ok();letthread_id=raw.thread_id;Ok(MinidumpException{raw,thread_id,context,endian,})"):
+    if need not in nows:
+        die("minidump.rs: expected `%s`" % need)
+pall = re.sub(r"\s+", "", re.sub(r"//[^\n]*", "", psrc))
+for need in ("os:dump_system_info.os,", "cpu:dump_system_info.cpu,",
+             "let(dump_thread_id,requesting_thread_id)=ifletOk(info)=breakpad_info{(info.dump_thread_id,info.requesting_thread_id)}else{(None,None)};",
+             "letexception=self.exception.as_ref()?;letreason=exception.get_crash_reason(self.system_info.os,self.system_info.cpu);"
+             "letaddress=exception.get_crash_address(self.system_info.os,self.system_info.cpu);",
+             "letcontext=exception.context(&self.dump_system_info,self.misc_info.as_ref());",
+             "letinfo=exception_info.unwrap_or_else(||crate::ExceptionInfo::new(reason,address.into()));Some(ExceptionDetails{info,context,instruction_registers,})",
+             "exception_info=Some(crate::ExceptionInfo::with_op_analysis(reason,address.into(),adjusted_address,op_analysis,));",
+             "letlinux_proc_status=linux_proc_status.map(LinuxProcStatus::from);"):
+    if need not in pall:
+        die("processor.rs: expected `%s`" % need)
+
 # (d) thread names (last readable entry of an id wins: BTreeMap::insert in stream order) and the Linux status stream
 for need in ("letmutnames=BTreeMap::new();forraw_nameinraw_names{letmutoffset=raw_name.thread_name_rvaasusize;"
              "ifletSome(name)=read_string_utf16(&mutoffset,all,endian){names.insert(raw_name.thread_id,name);}else{",
